@@ -1572,7 +1572,6 @@ export Whole (RW wholeM wholeM_callees process_whole_agrees process_whole_total 
 
 end Isotp.PyAgree
 
-#print axioms Isotp.PyAgree.process_whole_agrees
 #print axioms Isotp.PyAgree.Whole.process_whole_agrees
 #print axioms Isotp.PyAgree.Whole.process_whole_total
 #print axioms Isotp.PyAgree.Whole.process_whole_init
